@@ -345,6 +345,10 @@ class EntropyExhausted(Exception):
     """raised by a scripted entropy function that is asked for far more than any correct sampler needs"""
 
 
+class EntropySourceError(OSError):
+    """what a scripted entropy function raises when the driver makes it fail (os.urandom raises OSError subclasses)"""
+
+
 class Entropy:
     """entropy_f handed to a session: serves a scripted byte stream (or random
     bytes from a seeded generator) and logs every request.  A script that runs
@@ -359,8 +363,15 @@ class Entropy:
         self.pos = 0
         self.rng = rng
         self.extra = 0
+        self.fail_after = None      # number of requests served before the function raises (None: never)
+        self.served = 0
 
     def __call__(self, n):
+        if self.fail_after is not None and self.served >= self.fail_after:
+            _entlog().append({"req": n, "got": ""})
+            _tls.entfail = True
+            raise EntropySourceError("entropy source failed")
+        self.served += 1
         if self.script is not None:
             got = self.script[self.pos:self.pos + n]
             self.pos += n
@@ -412,6 +423,9 @@ class Trace:
     def _ev(self, ev):
         ev["ent"] = list(_entlog())
         del _entlog()[:]
+        if getattr(_tls, "entfail", False):
+            ev["entfail"] = 1
+            _tls.entfail = False
         self.events.append(ev)
         return ev
 
@@ -466,11 +480,15 @@ class Trace:
                   "idA": hx(idA), "idB": hx(idB)})
         return inst
 
-    def start(self, inst, script=None):
+    def start(self, inst, script=None, fail_after=None):
+        """fail_after = k: the entropy function serves k requests and raises on the next one (None: it never raises)"""
         del _entlog()[:]
+        _tls.entfail = False
         o = self.objs[inst]
         if script is not None and isinstance(o.entropy_f, Entropy):
             o.entropy_f.script, o.entropy_f.pos, o.entropy_f.extra = script, 0, 0
+        if isinstance(getattr(o, "entropy_f", None), Entropy):
+            o.entropy_f.fail_after, o.entropy_f.served = fail_after, 0
         try:
             m = o.start()
             out = {"t": "msg", "v": hx(m)}
